@@ -124,6 +124,8 @@ def plan(prop):
         obs.append((core, lambda ctx: co.ob_fold_step(ctx, 1, False)))
         for r, j in (((1, 2), (2, 2), (1, 5)) if Q else ((1, 2), (2, 2), (1, 4), (2, 3), (3, 2), (1, 5), (1, 6))):
             obs.append((core, lambda ctx, r=r, j=j: co.ob_evaluate_all(ctx, r, j)))
+        for r, j, per_job in ((2, 2, True), (2, 2, False), (2, 3, True), (3, 2, False)):
+            obs.append((core, lambda ctx, r=r, j=j, pj=per_job: co.ob_evaluate_collect_all(ctx, r, j, pj)))
         import ieee_obligations as io
         for la, lb in (((1, 1), (2, 2), (1, 2)) if Q else ((1, 1), (2, 2), (1, 2), (2, 1), (3, 3), (3, 1))):
             obs.append((core, lambda ctx, la=la, lb=lb: io.ob_reducer(ctx, la, lb)))
